@@ -63,12 +63,28 @@ def _filter_arg_ok(arg, visitor_cls_suffix: str, text_param: str) -> bool:
     if visitor_cls_suffix not in str(arg[2]):
         return False
     inner = arg[1]
-    s = T.show(inner, 1000)
-    return ".parse(" in s and ".tokenize(" in s and f"'param', '{text_param}'" in repr(inner)
+
+    def call_of(t, meth):
+        # ('call', ('attr', <receiver>, meth), (one positional,), ())
+        if (isinstance(t, tuple) and len(t) == 4 and t[0] == "call" and isinstance(t[1], tuple) and t[1][0] == "attr"
+                and t[1][2] == meth and len(t[2]) == 1 and not t[3]):
+            return t[1][1], t[2][0]
+        return None
+
+    pr = call_of(inner, "parse")
+    if pr is None or "Parser" not in str(pr[0]):
+        return False
+    tk = call_of(pr[1], "tokenize")
+    if tk is None or "Lexer" not in str(tk[0]):
+        return False
+    return tk[1] == ("sym", "param", text_param)
 
 
 def _check_chain(ctx: Ctx, env, label: str, modname: str, fname: str, visitor_suffix: str, where_extra=None):
     m, fn, params, res = _shorthand_paths(env, modname, fname)
+    from .common import check_shared_caches
+    check_shared_caches(ctx, res, "R6.no-state-shared-between-calls", "a later call with a different filter text or query gets the earlier call's translation",
+                        "name eq 'Gorilla' then name eq 'gorilla'", label)
     ctx.floor(f"{label}: paths", len(res), 1)
     qparam, tparam = params[0], params[1] if len(params) > 1 else "?"
     for p in res:
